@@ -15,10 +15,19 @@ def run(patch, props, rev=False):
     for m in re.finditer(r"== (\S+?)(?: \(reversed\))? (C\d+) -> exit (\d)", out):
         r[m.group(2)] = int(m.group(3))
     return r, out
-only = sys.argv[1:]
+only = [a for a in sys.argv[1:] if not a.startswith("--part=")]
+# --part=i/n: every n-th job (seeds and reversed fixes counted together), so that several runs can share the work
+part = next((a[7:] for a in sys.argv[1:] if a.startswith("--part=")), "0/1")
+PI, PN = (int(x) for x in part.split("/"))
+job = [0]
+def mine():
+    job[0] += 1
+    return (job[0] - 1) % PN == PI
 for d in sorted(glob.glob(os.path.join(ROOT, "seeded", "C*-m*"))):
     name = os.path.basename(d)
     if only and name not in only:
+        continue
+    if not mine():
         continue
     meta = json.load(open(os.path.join(d, "meta.json")))
     r, out = run(os.path.join(d, "patch.diff"), [meta["property"]])
@@ -34,7 +43,7 @@ for k in known:
 if not only:
     for c, props in sorted(fixed.items()):
         p = os.path.join(ROOT, "fixes", c + ".patch")
-        if not os.path.exists(p):
+        if not os.path.exists(p) or not mine():
             continue
         r, out = run(p, sorted(set(props)), rev=True)
         res.append({"seed": "revert-" + c, "property": ",".join(sorted(set(props))), "exit": r, "first": [l.strip() for l in out.splitlines() if l.strip().startswith("VIOLATION")][:1]})
